@@ -460,8 +460,25 @@ class Rewriter:
         f2.parent = lambda n: parent.get(n["id"])
         f2.byid = lambda i: byid.get(i)
         g = cfgm.CFG(f2)
+        # a local captured by reference by a lambda may be written inside the lambda body (a separate function):
+        # it is never substituted; neither is a local that an initialiser to be substituted would read after such a write
+        by_ref_captured = set()
+        for y in walk(body):
+            if y["k"] == "LambdaExpr":
+                for c_ in y.get("captures", []):
+                    if c_.get("byref") and c_.get("id") is not None:
+                        by_ref_captured.add(c_["id"])
         todo = {}
         for d, v in decls.items():
+            if d in by_ref_captured:
+                continue
+            if any(y["k"] == "DeclRefExpr" and y["ref"]["id"] in by_ref_captured for y in walk(kids(v)[0])):
+                continue
+            # a snapshot of shared state (an atomic member, an atomic load) is a value in time: reading it again at
+            # the use is something else, whatever this thread does in between
+            if any(("atomic" in (y.get("ty") or "")) or ("callee" in y and y["callee"]["name"] in ("load", "exchange", "fetch_add", "fetch_sub", "compare_exchange_weak",
+                                                                                               "compare_exchange_strong")) for y in walk(kids(v)[0])):
+                continue
             ty = (v.get("ty") or "")
             is_alias = ty.rstrip().endswith("&")
             is_const = ty.startswith("const ") or ty.rstrip().endswith(" const") or "*const" in ty.replace(" ", "")
@@ -516,6 +533,13 @@ class Rewriter:
                         for w in writes.get(o, []):
                             pw = g.pos_deep(w)
                             if pw is None or (g.path_between_avoiding(pd, pw, [pd]) is not None and g.path_between_avoiding(pw, pu, [pd]) is not None):
+                                return False
+                    if any(isinstance(o, tuple) or o in addr for o in idx_ops):
+                        # an index read from a member / an escaped variable: any call in between (a wait, a callback) may
+                        # change it, through this or through another thread
+                        for c in [y for y in walk(body) if "callee" in y and y["k"] in ("CallExpr", "CXXMemberCallExpr") and y["callee"]["name"] not in PURE_CALLS]:
+                            pc = g.pos_deep(c)
+                            if pc is not None and g.path_between_avoiding(pd, pc, [pd]) is not None and g.path_between_avoiding(pc, pu, [pd]) is not None:
                                 return False
                     for w in whole.get(root, []):
                         pw = g.pos_deep(w)
